@@ -99,13 +99,40 @@ func (s *Sim) doDeadRead(o *Op) {
 // doCacheIll: registering a registered filter and unregistering twice must panic and leave
 // all registrations working.
 func (s *Sim) doCacheIll(o *Op) {
+	if o.V == 2 {
+		// a filter that was unregistered earlier (other filters may have been registered since)
+		if s.M.NStale == 0 {
+			s.Report(finding(CatHarness, "cacheIll v=2 without an unregistered filter"))
+			return
+		}
+		ill := illegal("filter was unregistered before")
+		for _, b := range s.Worlds() {
+			st := b.Stale[o.Slot%len(b.Stale)]
+			p := Call(func() { b.W.Cache().Unregister(st) })
+			s.afterIllegal(o, b, ill, p, "", true)
+			if s.Done() {
+				return
+			}
+			// every current registration keeps working
+			for slot, c := range b.Regs {
+				if c == nil {
+					continue
+				}
+				if p := Call(func() { q := b.W.Query(c.Cached); q.Close() }); p != nil {
+					s.Report(finding(CatIllegal, "%s: after the rejected Unregister the registered filter in slot %d no longer works: %v", b.Name, slot, p))
+					return
+				}
+			}
+		}
+		return
+	}
 	if o.Slot >= len(s.M.Regs) || s.M.Regs[o.Slot] == nil {
 		s.Report(finding(CatHarness, "cacheIll on empty slot %d", o.Slot))
 		return
 	}
 	for _, b := range s.Worlds() {
 		c := b.Regs[o.Slot]
-		switch o.V % 2 {
+		switch o.V {
 		case 0:
 			ill := illegal("filter in slot %d is already registered", o.Slot)
 			p := Call(func() { b.W.Cache().Register(c.Cached) })
@@ -121,6 +148,7 @@ func (s *Sim) doCacheIll(o *Op) {
 			ill := illegal("filter of slot %d was already unregistered", o.Slot)
 			regs := s.M.Regs[o.Slot]
 			s.M.Regs[o.Slot] = nil
+			b.Stale = append(b.Stale, stale)
 			p := Call(func() { b.W.Cache().Unregister(stale) })
 			s.afterIllegal(o, b, ill, p, "", true)
 			s.M.Regs[o.Slot] = regs
@@ -131,6 +159,7 @@ func (s *Sim) doCacheIll(o *Op) {
 	}
 	if o.V%2 == 1 {
 		s.M.Regs[o.Slot] = nil
+		s.M.NStale++
 	}
 }
 
